@@ -175,6 +175,10 @@ func c08Pool() *c08Pools {
 			}
 			c08P.chains = append(c08P.chains, ch)
 		}
+		// chains that yield no File at all (empty source, a first header that is cut or is none),
+		// and one whose second member is cut inside its header
+		c08P.chains = append(c08P.chains, []byte{}, []byte{14, 0x20}, []byte("not a FIT header at all"),
+			append(append([]byte{}, c08P.inputs[len(c08P.inputs)-1]...), 14, 0x10, 0x43))
 		for k := uint64(0); k < 30; k++ {
 			k := k
 			c08P.files = append(c08P.files, func() *fit.File {
@@ -339,6 +343,8 @@ func c08Call(id string, known map[string]int) (digest string, err error) {
 			}
 		case "DC":
 			fs, e := fit.DecodeChained(bytes.NewReader(p.chains[arg(1)]))
+			// (deep equality of the result includes whether the slice is nil or empty)
+			out = fmt.Sprintf("nil=%v len=%d:", fs == nil, len(fs))
 			for _, f := range fs {
 				out += canonContent(f, known) + ","
 			}
